@@ -225,3 +225,26 @@ def write_replay(pid, name, payload):
     with open(path, "w") as f:
         json.dump(payload, f, indent=1)
     return path
+
+
+def take_panics(runs):
+    """Remove the {"ev": "Panic"} records (a panic of the store outside a guarded API call, e.g. while a handle is
+    dropped) from the per-run record lists and return them: they are outcomes the caller reports as violations."""
+    out = []
+    for r in list(runs):
+        keep = []
+        for rec in runs[r]:
+            if rec.get("ev") == "Panic":
+                out.append(rec)
+            else:
+                keep.append(rec)
+        runs[r] = keep
+    return out
+
+
+def panic_violations(pid, runs, script_by_run, violations):
+    for rec in take_panics(runs):
+        sc = script_by_run.get(rec.get("run"))
+        p = write_replay(pid, "panic-run%s" % rec.get("run"), dict(kind="panic", property=pid, script=sc, record=rec))
+        violations.append(dict(prop=pid, replay=p, what="the store panicked outside an API call (%s) during: %s"
+                                                        % (str(rec.get("msg"))[:200], str(rec.get("during"))[:120])))
